@@ -59,12 +59,13 @@ func runC18(c *Ctx) {
 	llc := c.Func("length", "LongestLineCells")
 	if update != nil && width != nil && str != nil && llc != nil && height != nil {
 		found := false
+		unit := updateUnitOf(c, update)
 		for _, fs := range c.StoresTo(width) {
-			if fs.Fn != update {
+			if !unit[fs.Fn] {
 				continue
 			}
 			if call, ok := fs.St.Val.(*ssa.Call); ok && call.Call.StaticCallee() == llc {
-				if f, b := loadedField(call.Call.Args[0]); f == str && b == ssa.Value(update.Params[0]) {
+				if f, b := loadedField(call.Call.Args[0]); f == str && b == ssa.Value(fs.Fn.Params[0]) {
 					found = true
 				}
 			}
@@ -202,26 +203,29 @@ func c18HeightShape(c *Ctx, update, lines *ssa.Function, str, height interface{}
 	})
 	// Update: height = len(Lines(str))  -- or --  1 + Count(str, sep) with a decrement under HasSuffix(str, sep)
 	usesLines, usep, hasCount, hasSuffixDec := false, "", false, false
-	eachInstr(update, func(in ssa.Instruction) {
-		if staticCallee(in) == lines {
-			usesLines = true
-		}
-		if isCallTo(in, "strings", "Count") {
-			usep, _ = constString(callCommon(in).Args[1])
-			hasCount = true
-		}
-		if isCallTo(in, "strings", "HasSuffix") {
-			s, _ := constString(callCommon(in).Args[1])
-			// a decrement of height guarded by it
-			v := in.(ssa.Value)
-			for _, b := range update.Blocks {
-				for _, cf := range dominatingConds(b) {
-					if cf.Cond == v && cf.Val {
-						for _, x := range b.Instrs {
-							if st, ok := x.(*ssa.Store); ok {
-								if bo, ok := st.Val.(*ssa.BinOp); ok && bo.Op == token.SUB {
-									if k, ok := constInt(bo.Y); ok && k == 1 && s == usep {
-										hasSuffixDec = true
+	for _, uf := range sortedFuncs(updateUnitOf(c, update)) {
+		update := uf
+		eachInstr(update, func(in ssa.Instruction) {
+			if staticCallee(in) == lines {
+				usesLines = true
+			}
+			if isCallTo(in, "strings", "Count") {
+				usep, _ = constString(callCommon(in).Args[1])
+				hasCount = true
+			}
+			if isCallTo(in, "strings", "HasSuffix") {
+				s, _ := constString(callCommon(in).Args[1])
+				// a decrement of height guarded by it
+				v := in.(ssa.Value)
+				for _, b := range update.Blocks {
+					for _, cf := range dominatingConds(b) {
+						if cf.Cond == v && cf.Val {
+							for _, x := range b.Instrs {
+								if st, ok := x.(*ssa.Store); ok {
+									if bo, ok := st.Val.(*ssa.BinOp); ok && bo.Op == token.SUB {
+										if k, ok := constInt(bo.Y); ok && k == 1 && s == usep {
+											hasSuffixDec = true
+										}
 									}
 								}
 							}
@@ -229,8 +233,8 @@ func c18HeightShape(c *Ctx, update, lines *ssa.Function, str, height interface{}
 					}
 				}
 			}
-		}
-	})
+		})
+	}
 	switch {
 	case usesLines && !hasCount:
 		r.Check("R18.2", FuncName(update), "height is derived from length.Lines itself", update.Pos(), true, "")
@@ -508,8 +512,9 @@ func c18WidthStores(c *Ctx, rule string) {
 		return
 	}
 	n := 0
+	unit := updateUnitOf(c, update)
 	for _, fs := range c.StoresTo(width) {
-		if fs.Fn != update {
+		if !unit[fs.Fn] {
 			continue
 		}
 		for _, v := range phiClosure(fs.St.Val) {
@@ -522,7 +527,7 @@ func c18WidthStores(c *Ctx, rule string) {
 			case *ssa.Call:
 				if x.Call.StaticCallee() == llc {
 					f, b := loadedField(x.Call.Args[0])
-					ok = f == str && b == ssa.Value(update.Params[0])
+					ok = f == str && b == ssa.Value(fs.Fn.Params[0])
 					why = "LongestLineCells of something other than the cell's text"
 				} else if x.Call.IsInvoke() && x.Call.Method.Name() == "TerminalCellWidth" {
 					ok = true
@@ -538,7 +543,7 @@ func c18WidthStores(c *Ctx, rule string) {
 				}
 				ok = f == width
 			}
-			r.Check(rule, FuncName(update), fmt.Sprintf("width store #%d is 0, the widest line of the text, the item's declared width or the nested cell's width", n), fs.St.Pos(), ok, why)
+			r.Check(rule, FuncName(fs.Fn), fmt.Sprintf("width store #%d is 0, the widest line of the text, the item's declared width or the nested cell's width", n), fs.St.Pos(), ok, why)
 		}
 	}
 	r.Floor(rule, "values stored as a cell's width", n, 3)
